@@ -139,6 +139,16 @@ def compare(ctx, mods, n, text):
             want = {vname(nm): (d, w, 0) for nm, d, w in m.ports}
             if g["ports"] != want:
                 return "reader-differs-from-model:primitive-ports", "primitive %s ports %s, expected %s" % (m.name, g["ports"], want)
+            ctx.count("primitive_attributes_compared")
+            if g["attrs"] != dict(m.attrs):
+                return "reader-differs-from-model:primitive-attrs", "primitive %s attributes %s, expected %s" % (m.name, g["attrs"], dict(m.attrs))
+    # ... and no module carries attributes that were written in front of ANOTHER module
+    for mn, g in got.items():
+        if mn not in exp and not any(m.name.strip() == mn for m in mods) and g.get("attrs"):
+            return "reader-differs-from-model:stray-attrs", "definition %s carries attributes %s" % (mn, g["attrs"])
+    for m in mods:
+        if False:
+            pass
     # top = the single root
     root = mods[-1].name
     t = n.top_instance
